@@ -1823,6 +1823,13 @@ class Interp:
         out = Val(kind=kind, dim=D0, deps=deps, pdeps=pdeps, const=const,
                   tags=ret_tags(left, *rights) | tags | batch_tag(left, *rights), born=self.time)
         out.extra = ("cmp", n, left, rights)
+        if len(rights) == 1 and isinstance(n.ops[0], (ast.Eq, ast.NotEq)):
+            # x == roll(x): each row against its successor in the order given - a comparison of *consecutive* rows only
+            for a_, b_ in ((left, rights[0]), (rights[0], left)):
+                rg = [t for t in a_.tags if isinstance(t, tuple) and t and t[0] == "roll-given"]
+                if rg and rg[0][1] == tuple(sorted(b_.pdeps)) and \
+                        {d_ for d_ in rg[0][2] if d_[0] != "subset"} == {d_ for d_ in b_.deps if d_[0] != "subset"}:
+                    out.tags = out.tags | {("ret", "<neighbour-diff>")}
         return out
 
     def e_IfExp(self, n, st):
